@@ -392,10 +392,22 @@ def _is_helper_frame(q):
     return name.startswith("_") and not (name.startswith("__") and name.endswith("__"))
 
 
+def eff_stack(stack):
+    """The activation stack without closure frames (`outer.<locals>.inner`): a decorator's wrapper or a nested
+    helper function is transparent - the code it runs belongs to the function that was wrapped / that defined it."""
+    out = tuple(fr for fr in stack if ".<locals>." not in fr[0])
+    return out if out else tuple(stack[-1:])
+
+
+def depth(n):
+    return len(eff_stack(n.stack))
+
+
 def own_stack(stack):
     """True if the activation stack is the entry function itself, possibly
     followed only by private helper functions called on the same receiver
     (an 'extract method' refactoring must not move code out of a rule's view)."""
+    stack = eff_stack(stack)
     if not stack:
         return False
     r0 = stack[0][1]
@@ -419,4 +431,5 @@ def own(n):
 def own_child(n):
     """The node is the direct activation record of a call made from the entry's own logic
     (stack = own prefix + one more frame)."""
-    return len(n.stack) >= 2 and own_stack(n.stack[:-1])
+    st = eff_stack(n.stack)
+    return len(st) >= 2 and own_stack(st[:-1])
